@@ -17,14 +17,11 @@ def Phase.isQ : Phase → Bool
 def Phase.isCh : Phase → Bool
   | .inchan => true
   | _ => false
-def Phase.isWin : Phase → Bool
-  | .window | .counted => true
-  | _ => false
 def Phase.isPop : Phase → Bool
   | .popped => true
   | _ => false
 def Phase.isEarly : Phase → Bool
-  | .fresh | .window | .counted => true
+  | .fresh | .counted => true
   | _ => false
 def Phase.isRunning : Phase → Bool
   | .running => true
@@ -35,7 +32,6 @@ def Phase.isMarking : Phase → Bool
 
 def fQ (x : Task) : Bool := x.phase.isQ
 def fCh (x : Task) : Bool := x.phase.isCh
-def fWin (x : Task) : Bool := x.phase.isWin
 def fPop (x : Task) : Bool := x.phase.isPop
 def fER (x : Task) : Bool := x.phase.isEarly && x.returned
 
@@ -78,7 +74,11 @@ def DPc.isSend : DPc → Bool
   | _ => false
 
 def DPc.late : DPc → Bool
-  | .size | .waitZero | .close => true
+  | .chk | .cond2 | .close => true
+  | _ => false
+
+def WPc.isSignal : WPc → Bool
+  | .signal _ => true
   | _ => false
 
 def phL (l : List Task) (t : Nat) (f : Phase → Bool) : Bool :=
@@ -88,25 +88,23 @@ def phL (l : List Task) (t : Nat) (f : Phase → Bool) : Bool :=
 
 abbrev nQ (s : St) : Nat := s.tasks.countP fQ
 abbrev nCh (s : St) : Nat := s.tasks.countP fCh
-abbrev nWin (s : St) : Nat := s.tasks.countP fWin
 abbrev nPop (s : St) : Nat := s.tasks.countP fPop
 abbrev nER (s : St) : Nat := s.tasks.countP fER
 
 structure LInv (p : Params) (s : St) : Prop where
-  h1 : s.stackHeld = true ↔ (s.disp = .cond ∨ s.disp = .gap)
+  h1 : s.stackHeld = true ↔ (s.disp = .cond ∨ s.disp = .cond2 ∨ s.disp = .gap)
   d1 : s.disp ≠ .none → s.closed = false
   d3 : s.closed = false → ∀ w ∈ s.workers, w.isExited = false
   wl : s.workers.length = p.W ∨ (s.workers = [] ∧ s.disp = .none ∧ s.running = false ∧ s.closed = false)
   d5 : (s.disp = .close ∨ s.disp = .none) → s.tasks.countP fCh = 0
   d9 : s.disp = .none → s.workers = [] ∨ s.closed = true
-  q1 : (s.disp = .cond ∨ s.disp = .gap ∨ (s.disp = .waiting ∧ s.dwait = true)) → s.tasks.countP fQ = 0
-  lw : s.running = false → s.bcastPending = false → s.lost = false →
-        s.disp ≠ .gap ∧ ¬ (s.disp = .waiting ∧ s.dwait = true)
+  q1 : (s.disp = .cond ∨ s.disp = .cond2 ∨ s.disp = .gap ∨ (s.disp = .waiting ∧ s.dwait = true)) → s.tasks.countP fQ = 0
+  /-- a dispatcher that is (about to be) asleep has a reason to wait, or a wake-up is owed -/
+  lw : (s.disp = .gap ∨ (s.disp = .waiting ∧ s.dwait = true)) → (s.running = true ∨ 0 < s.pending ∨ 0 < s.due)
   d7 : s.disp.late = true → s.running = false
   d8 : s.running = true → s.disp ≠ .none
-  iw : s.inWindow = s.tasks.countP fWin
-  j1 : s.raced = false → s.running = false → s.inWindow = 0
-  rw : s.raced = false → s.running = false → (s.disp = .waitZero ∨ s.disp = .close ∨ s.disp = .none) → s.tasks.countP fQ = 0
+  /-- a stopped pool whose dispatcher has seen (or is past seeing) "nothing pending" has nothing pending -/
+  pz : (s.disp = .close ∨ s.disp = .none) → s.running = false → s.pending = 0
   n1 : s.sig ≤ s.sent + s.workers.countP WPc.isSel
   n2 : s.sig ≤ p.W
   sr : s.running = true → s.sent = 0
@@ -118,13 +116,12 @@ structure LInv (p : Params) (s : St) : Prop where
 
 theorem linv_init (p : Params) : LInv p St.init := by
   refine ⟨by simp [St.init], by simp [St.init], ?_, Or.inr ⟨rfl, rfl, rfl, rfl⟩, fun _ => rfl, fun _ => Or.inl rfl,
-    fun _ => rfl, ?_, fun _ => rfl, by simp [St.init], rfl, fun _ _ => rfl, fun _ _ _ => rfl, by simp [St.init],
+    fun _ => rfl, ?_, fun _ => rfl, by simp [St.init], fun _ _ => rfl, by simp [St.init],
     by simp [St.init], by simp [St.init], rfl, by simp [St.init], rfl, ?_, ?_⟩
   · intro _ w hw; simp [St.init] at hw
-  · intro _ _ _; simp [St.init]
+  · intro a; simp [St.init] at a
   · intro t; simp [St.init, phL]
   · intro t; simp [St.init, phL]
-
 
 theorem phL_set (l : List Task) (t0 : Nat) (x y : Task) (ht : l[t0]? = some x) (t : Nat) (f : Phase → Bool) :
     phL (l.set t0 y) t f = if t = t0 then f y.phase else phL l t f := by
@@ -159,74 +156,51 @@ theorem countP_set' (f : Task → Bool) (l : List Task) (t : Nat) (x y : Task) (
 structure UpdFacts (l l' : List Task) (t : Nat) (x y : Task) : Prop where
   q : l'.countP fQ = l.countP fQ + b2n (fQ y) - b2n (fQ x) ∧ b2n (fQ x) ≤ l.countP fQ
   ch : l'.countP fCh = l.countP fCh + b2n (fCh y) - b2n (fCh x) ∧ b2n (fCh x) ≤ l.countP fCh
-  win : l'.countP fWin = l.countP fWin + b2n (fWin y) - b2n (fWin x) ∧ b2n (fWin x) ≤ l.countP fWin
   pop : l'.countP fPop = l.countP fPop + b2n (fPop y) - b2n (fPop x) ∧ b2n (fPop x) ≤ l.countP fPop
   er : l'.countP fER = l.countP fER + b2n (fER y) - b2n (fER x) ∧ b2n (fER x) ≤ l.countP fER
   ph : ∀ t' f, phL l' t' f = if t' = t then f y.phase else phL l t' f
   old : ∀ f, phL l t f = f x.phase
 
 theorem updFacts (l : List Task) (t : Nat) (x y : Task) (ht : l[t]? = some x) : UpdFacts l (l.set t y) t x y :=
-  ⟨countP_set' fQ l t x y ht, countP_set' fCh l t x y ht, countP_set' fWin l t x y ht, countP_set' fPop l t x y ht,
+  ⟨countP_set' fQ l t x y ht, countP_set' fCh l t x y ht, countP_set' fPop l t x y ht,
    countP_set' fER l t x y ht, phL_set l t x y ht, phL_get l t x ht⟩
 
-macro "linv_simp" : tactic => `(tactic|
-  (simp_all [DPc.late, DPc.isSend, b2n, WPc.isSel, WPc.runs, WPc.marks, WPc.isExited, Phase.isPop,
-      Phase.isRunning, Phase.isMarking]))
-
-macro "linv_fin" : tactic => `(tactic|
-  (refine ⟨?_, ?_, ?_, ?_, ?_, ?_, ?_, ?_, ?_, ?_, ?_, ?_, ?_, ?_, ?_, ?_, ?_, ?_, ?_, ?_, ?_⟩ <;>
-    first
-    | assumption
-    | (linv_simp; done)
-    | ((try linv_simp); omega)))
-
-/-- variant for steps that change task `t` -/
-macro "linv_fin_t" t:term : tactic => `(tactic|
-  (refine ⟨?_, ?_, ?_, ?_, ?_, ?_, ?_, ?_, ?_, ?_, ?_, ?_, ?_, ?_, ?_, ?_, ?_, ?_, ?_, ?_, ?_⟩ <;>
-    first
-    | assumption
-    | (linv_simp; done)
-    | ((try linv_simp); omega)
-    | (intro t'; by_cases ht' : t' = $t <;> linv_simp)))
-
 macro "phase_simp" "at" h:ident : tactic => `(tactic|
-  simp only [fQ, fCh, fWin, fPop, fER, Phase.isQ, Phase.isCh, Phase.isWin, Phase.isPop, Phase.isEarly, b2n,
+  simp only [fQ, fCh, fPop, fER, Phase.isQ, Phase.isCh, Phase.isPop, Phase.isEarly, b2n,
     Bool.and_true, Bool.and_false, Bool.false_and, Bool.true_and, if_true, if_false, Bool.false_eq_true,
     Nat.add_zero, Nat.sub_zero, Nat.zero_le, and_true, Nat.add_sub_cancel, reduceIte] at $h:ident)
 
-
 set_option hygiene false in
 macro "linv_open" h:ident : tactic => `(tactic|
-  obtain ⟨h1, d1, d3, wl, d5, d9, q1, lw, d7, d8, iw, j1, rw, n1, n2, sr, p1, od1, od2, oe1, oe2⟩ := $h)
+  obtain ⟨h1, d1, d3, wl, d5, d9, q1, lw, d7, d8, pz, n1, n2, sr, p1, od1, od2, oe1, oe2⟩ := $h)
 
 set_option hygiene false in
 macro "upd_facts" ht:term "," y:term : tactic => `(tactic|
-  (obtain ⟨fq, fch, fwin, fpop, fer, fph, fold⟩ := updFacts _ _ _ $y $ht
-   phase_simp at fq; phase_simp at fch; phase_simp at fwin; phase_simp at fpop; phase_simp at fer))
+  (obtain ⟨fq, fch, fpop, fer, fph, fold⟩ := updFacts _ _ _ $y $ht
+   phase_simp at fq; phase_simp at fch; phase_simp at fpop; phase_simp at fer))
 
 /-- `LInv` only looks at these fields. -/
 theorem LInv.congr {p : Params} {s s' : St} (h : LInv p s)
     (e1 : s'.stackHeld = s.stackHeld) (e2 : s'.disp = s.disp) (e3 : s'.closed = s.closed) (e4 : s'.workers = s.workers)
-    (e5 : s'.running = s.running) (e6 : s'.dwait = s.dwait) (e7 : s'.bcastPending = s.bcastPending)
-    (e8 : s'.lost = s.lost) (e9 : s'.inWindow = s.inWindow) (e10 : s'.raced = s.raced) (e11 : s'.sig = s.sig)
+    (e5 : s'.running = s.running) (e6 : s'.dwait = s.dwait) (e7 : s'.due = s.due)
+    (e8 : s'.pending = s.pending) (e11 : s'.sig = s.sig)
     (e12 : s'.sent = s.sent) (e13 : s'.tasks = s.tasks) : LInv p s' := by
   linv_open h
-  refine ⟨?_, ?_, ?_, ?_, ?_, ?_, ?_, ?_, ?_, ?_, ?_, ?_, ?_, ?_, ?_, ?_, ?_, ?_, ?_, ?_, ?_⟩ <;>
-    simp only [e1, e2, e3, e4, e5, e6, e7, e8, e9, e10, e11, e12, e13] <;> assumption
+  refine ⟨?_, ?_, ?_, ?_, ?_, ?_, ?_, ?_, ?_, ?_, ?_, ?_, ?_, ?_, ?_, ?_, ?_, ?_, ?_⟩ <;>
+    simp only [e1, e2, e3, e4, e5, e6, e7, e8, e11, e12, e13] <;> assumption
 
 /-- the bits of a task record that `LInv` can see -/
 def bits (x : Task) : List Bool :=
-  [fQ x, fCh x, fWin x, fPop x, fER x, x.phase.isRunning, x.phase.isMarking]
+  [fQ x, fCh x, fPop x, fER x, x.phase.isRunning, x.phase.isMarking]
 
 theorem linv_same_bits {p : Params} {s : St} {t : Nat} {x : Task} (y : Task) (h : LInv p s)
     (ht : s.tasks[t]? = some x) (hb : bits y = bits x) : LInv p { s with tasks := s.tasks.set t y } := by
   simp only [bits, List.cons.injEq, and_true] at hb
-  obtain ⟨b1, b2, b3, b4, b5, b6, b7⟩ := hb
-  obtain ⟨fq, fch, fwin, fpop, fer, fph, fold⟩ := updFacts s.tasks t x y ht
-  rw [b1] at fq; rw [b2] at fch; rw [b3] at fwin; rw [b4] at fpop; rw [b5] at fer
+  obtain ⟨b1, b2, b4, b5, b6, b7⟩ := hb
+  obtain ⟨fq, fch, fpop, fer, fph, fold⟩ := updFacts s.tasks t x y ht
+  rw [b1] at fq; rw [b2] at fch; rw [b4] at fpop; rw [b5] at fer
   have e1 : (s.tasks.set t y).countP fQ = s.tasks.countP fQ := by omega
   have e2 : (s.tasks.set t y).countP fCh = s.tasks.countP fCh := by omega
-  have e3 : (s.tasks.set t y).countP fWin = s.tasks.countP fWin := by omega
   have e4 : (s.tasks.set t y).countP fPop = s.tasks.countP fPop := by omega
   have e5 : (s.tasks.set t y).countP fER = s.tasks.countP fER := by omega
   have g1 : ∀ t', phL (s.tasks.set t y) t' Phase.isPop = phL s.tasks t' Phase.isPop := by
@@ -242,7 +216,7 @@ theorem linv_same_bits {p : Params} {s : St} {t : Nat} {x : Task} (y : Task) (h 
     · subst h'; simp [fold]; exact b7
     · simp [h']
   linv_open h
-  refine ⟨h1, d1, d3, wl, ?_, d9, ?_, lw, d7, d8, ?_, j1, ?_, n1, n2, sr, ?_, ?_, ?_, ?_, ?_⟩ <;> simp only [e1, e2, e3, e4, e5, g1, g2, g3] <;> assumption
+  refine ⟨h1, d1, d3, wl, ?_, d9, ?_, lw, d7, d8, pz, n1, n2, sr, ?_, ?_, ?_, ?_, ?_⟩ <;> simp only [e1, e2, e4, e5, g1, g2, g3] <;> assumption
 
 theorem not_send_of_phase {p : Params} {s : St} {t : Nat} {x : Task} (h : LInv p s) (ht : s.tasks[t]? = some x)
     (hp : x.phase.isPop = false) : s.disp ≠ .send t := by
@@ -251,53 +225,38 @@ theorem not_send_of_phase {p : Params} {s : St} {t : Nat} {x : Task} (h : LInv p
   rw [phL_get _ _ _ ht] at this
   rw [hp] at this; cases this
 
-/-- `Submit` passes the running check. -/
-theorem linv_enter_window {p : Params} {s : St} {t : Nat} {kids : List Body} (h : LInv p s)
+
+
+/-- `Submit` found the pool running and counted its task (one step under the read lock). -/
+theorem linv_count {p : Params} {s : St} {t : Nat} {kids : List Body} (h : LInv p s)
     (ht : s.tasks[t]? = some ⟨.fresh, false, kids⟩) (hrun : s.running = true) :
-    LInv p { s with tasks := s.tasks.set t ⟨.window, false, kids⟩, inWindow := s.inWindow + 1 } := by
-  have hns := not_send_of_phase h ht rfl
-  upd_facts ht, ⟨.window, false, kids⟩
-  linv_open h
-  refine ⟨h1, d1, d3, wl, ?_, d9, ?_, lw, d7, d8, ?_, ?_, ?_, n1, n2, sr, ?_, ?_, ?_, ?_, ?_⟩
-  · simpa [fch] using d5
-  · simpa [fq] using q1
-  · simp [fwin, iw]
-  · intro _ hr; simp [hrun] at hr
-  · intro _ hr; simp [hrun] at hr
-  · simpa [fer] using p1
-  · intro t' hd; rw [fph]; by_cases h' : t' = t
-    · subst h'; exact absurd hd hns
-    · simp [h']; exact od1 t' hd
-  · simpa [fpop] using od2
-  · intro t'; rw [fph]; by_cases h' : t' = t
-    · subst h'; simp [Phase.isRunning]; simpa [fold, Phase.isRunning] using oe1 t'
-    · simp [h']; exact oe1 t'
-  · intro t'; rw [fph]; by_cases h' : t' = t
-    · subst h'; simp [Phase.isMarking]; simpa [fold, Phase.isMarking] using oe2 t'
-    · simp [h']; exact oe2 t'
+    LInv p { s with tasks := s.tasks.set t ⟨.counted, false, kids⟩, pending := s.pending + 1 } := by
+  have h' := linv_same_bits ⟨.counted, false, kids⟩ h ht rfl
+  linv_open h'
+  refine ⟨h1, d1, d3, wl, d5, d9, q1, ?_, d7, d8, ?_, n1, n2, sr, p1, od1, od2, oe1, oe2⟩
+  · intro _; right; left; show 0 < s.pending + 1; omega
+  · intro _ hr; have : s.running = false := hr; rw [hrun] at this; cases this
 
 /-- `Submit` pushes its task (and broadcasts `elementAdded`). -/
 theorem linv_push {p : Params} {s : St} {t : Nat} {kids : List Body} (h : LInv p s)
     (ht : s.tasks[t]? = some ⟨.counted, false, kids⟩) (hsh : s.stackHeld = false) :
-    LInv p { s with tasks := s.tasks.set t ⟨.queued, false, kids⟩, dwait := false, inWindow := s.inWindow - 1 } := by
+    LInv p { s with tasks := s.tasks.set t ⟨.queued, false, kids⟩, dwait := false } := by
   have hns := not_send_of_phase h ht rfl
   upd_facts ht, ⟨.queued, false, kids⟩
   linv_open h
-  have hnc : ¬ (s.disp = .cond ∨ s.disp = .gap) := fun hc => by rw [h1.mpr hc] at hsh; cases hsh
-  have hwin : 0 < s.inWindow := by rw [iw]; omega
-  refine ⟨h1, d1, d3, wl, ?_, d9, ?_, ?_, d7, d8, ?_, ?_, ?_, n1, n2, sr, ?_, ?_, ?_, ?_, ?_⟩
+  have hnc : ¬ (s.disp = .cond ∨ s.disp = .cond2 ∨ s.disp = .gap) := fun hc => by rw [h1.mpr hc] at hsh; cases hsh
+  refine ⟨h1, d1, d3, wl, ?_, d9, ?_, ?_, d7, d8, pz, n1, n2, sr, ?_, ?_, ?_, ?_, ?_⟩
   · simpa [fch] using d5
   · intro hq
-    rcases hq with hq | hq | hq
+    rcases hq with hq | hq | hq | hq
     · exact absurd (Or.inl hq) hnc
-    · exact absurd (Or.inr hq) hnc
+    · exact absurd (Or.inr (Or.inl hq)) hnc
+    · exact absurd (Or.inr (Or.inr hq)) hnc
     · simp at hq
-  · intro a b c
-    obtain ⟨l1, l2⟩ := lw a b c
-    exact ⟨l1, by simp⟩
-  · simp [fwin, iw]
-  · intro a b; have := j1 a b; omega
-  · intro a b c; have := j1 a b; omega
+  · intro hq
+    rcases hq with hq | hq
+    · exact absurd (Or.inr (Or.inr hq)) hnc
+    · simp at hq
   · simpa [fer] using p1
   · intro t' hd; rw [fph]; by_cases h' : t' = t
     · subst h'; exact absurd hd hns
@@ -326,32 +285,29 @@ theorem linv_submitStep {p : Params} {s : St} {t : Nat} {r : St × Bool} (h : LI
       cases ph
       case fresh =>
         by_cases hw : s.writer = true
-        · simp [hw] at hr
-        · by_cases hrun : s.running = true
-          · simp [hw, hrun] at hr; subst hr
+        · rw [if_pos hw] at hr; simp at hr
+        · rw [if_neg hw] at hr
+          by_cases hrun : s.running = true
+          · rw [if_pos hrun] at hr; simp at hr; subst hr
             rw [setPhase_eq ht]
-            exact linv_enter_window h ht hrun
-          · simp [hw, hrun] at hr; subst hr
+            exact (linv_count h ht hrun).congr rfl rfl rfl rfl rfl rfl rfl rfl rfl rfl rfl
+          · rw [if_neg hrun] at hr; simp at hr; subst hr
             rw [setPhase_eq ht]
             exact linv_same_bits ⟨.rejected, false, kids⟩ h ht rfl
       case rejected =>
         simp at hr; subst hr
         rw [setReturned_eq ht]
-        exact (linv_same_bits ⟨.rejected, true, kids⟩ h ht rfl).congr rfl rfl rfl rfl rfl rfl rfl rfl rfl rfl rfl rfl rfl
-      case window =>
-        simp at hr; subst hr
-        rw [setPhase_eq ht]
-        exact (linv_same_bits ⟨.counted, false, kids⟩ h ht rfl).congr rfl rfl rfl rfl rfl rfl rfl rfl rfl rfl rfl rfl rfl
+        exact (linv_same_bits ⟨.rejected, true, kids⟩ h ht rfl).congr rfl rfl rfl rfl rfl rfl rfl rfl rfl rfl rfl
       case counted =>
         by_cases hsh : s.stackHeld = true
-        · simp [hsh] at hr
-        · simp [hsh] at hr; subst hr
+        · rw [if_pos hsh] at hr; simp at hr
+        · rw [if_neg hsh] at hr; simp at hr; subst hr
           rw [setPhase_eq ht]
           exact linv_push h ht (by simpa using hsh)
       all_goals
         simp at hr; subst hr
         rw [setReturned_eq ht]
-        exact (linv_same_bits ⟨_, true, kids⟩ h ht rfl).congr rfl rfl rfl rfl rfl rfl rfl rfl rfl rfl rfl rfl rfl
+        exact (linv_same_bits ⟨_, true, kids⟩ h ht rfl).congr rfl rfl rfl rfl rfl rfl rfl rfl rfl rfl rfl
 
 
 
@@ -360,51 +316,55 @@ macro "dsimp_all" : tactic => `(tactic|
   | (simp_all [DPc.late, DPc.isSend, b2n]; done)
   | (simp_all [DPc.late, DPc.isSend, b2n]; omega))
 
-/-- dispatcher moves that only change `disp` / `stackHeld` / `dwait` / `closed` -/
-theorem linv_d_loop {p : Params} {s : St} (h : LInv p s) (hd : s.disp = .loop) :
-    LInv p { s with disp := if s.running then .pop else .size } := by
-  linv_open h
-  refine ⟨?_, ?_, d3, ?_, ?_, ?_, ?_, ?_, ?_, ?_, iw, j1, ?_, n1, n2, sr, p1, ?_, ?_, oe1, oe2⟩ <;>
-    (cases hr : s.running <;> dsimp_all)
+set_option hygiene false in
+macro "disp_fields" : tactic => `(tactic|
+  refine ⟨?_, ?_, d3, ?_, ?_, ?_, ?_, ?_, ?_, ?_, ?_, n1, n2, sr, p1, ?_, ?_, oe1, oe2⟩)
 
-theorem linv_d_size {p : Params} {s : St} (h : LInv p s) (hd : s.disp = .size) (hsh : s.stackHeld = false) :
-    LInv p { s with disp := if queuedIds s = [] then .waitZero else .pop } := by
-  have hq := queued_nil s
+theorem linv_d_loop {p : Params} {s : St} (h : LInv p s) (hd : s.disp = .loop) :
+    LInv p { s with disp := if s.running then .pop else .chk } := by
   linv_open h
-  by_cases hqq : queuedIds s = [] <;>
-  refine ⟨?_, ?_, d3, ?_, ?_, ?_, ?_, ?_, ?_, ?_, iw, j1, ?_, n1, n2, sr, p1, ?_, ?_, oe1, oe2⟩ <;> dsimp_all
+  disp_fields <;> (cases hr : s.running <;> dsimp_all)
+
+theorem linv_d_chk {p : Params} {s : St} (h : LInv p s) (hd : s.disp = .chk)
+    (hch : s.pending = 0 → s.tasks.countP fCh = 0) :
+    LInv p { s with disp := if 0 < s.pending then .pop else .close } := by
+  linv_open h
+  by_cases hp : 0 < s.pending
+  · simp only [hp, if_true]; disp_fields <;> dsimp_all
+  · have hp0 : s.pending = 0 := by omega
+    have := hch hp0
+    simp only [hp, if_false]; disp_fields <;> dsimp_all
 
 theorem linv_d_tocond {p : Params} {s : St} (h : LInv p s) (hd : s.disp = .pop ∨ s.disp = .waiting)
     (hq : queuedIds s = []) : LInv p { s with stackHeld := true, disp := .cond } := by
   have hq' := (queued_nil s).mp hq
   linv_open h
-  rcases hd with hd | hd <;>
-  refine ⟨?_, ?_, d3, ?_, ?_, ?_, ?_, ?_, ?_, ?_, iw, j1, ?_, n1, n2, sr, p1, ?_, ?_, oe1, oe2⟩ <;> dsimp_all
+  rcases hd with hd | hd <;> disp_fields <;> dsimp_all
 
-theorem linv_d_cond_t {p : Params} {s : St} (h : LInv p s) (hd : s.disp = .cond) (hr : s.running = true) :
+theorem linv_d_cond {p : Params} {s : St} (h : LInv p s) (hd : s.disp = .cond) :
+    LInv p { s with disp := if s.running then .gap else .cond2 } := by
+  linv_open h
+  disp_fields <;> (cases hr : s.running <;> dsimp_all)
+
+theorem linv_d_cond2_t {p : Params} {s : St} (h : LInv p s) (hd : s.disp = .cond2) (hp : 0 < s.pending) :
     LInv p { s with disp := .gap } := by
   linv_open h
-  refine ⟨?_, ?_, d3, ?_, ?_, ?_, ?_, ?_, ?_, ?_, iw, j1, ?_, n1, n2, sr, p1, ?_, ?_, oe1, oe2⟩ <;> dsimp_all
+  disp_fields <;> dsimp_all
 
-theorem linv_d_cond_f {p : Params} {s : St} (h : LInv p s) (hd : s.disp = .cond) (hr : s.running = false) :
+theorem linv_d_cond2_f {p : Params} {s : St} (h : LInv p s) (hd : s.disp = .cond2) :
     LInv p { s with stackHeld := false, disp := .loop } := by
   linv_open h
-  refine ⟨?_, ?_, d3, ?_, ?_, ?_, ?_, ?_, ?_, ?_, iw, j1, ?_, n1, n2, sr, p1, ?_, ?_, oe1, oe2⟩ <;> dsimp_all
+  disp_fields <;> dsimp_all
 
 theorem linv_d_gap {p : Params} {s : St} (h : LInv p s) (hd : s.disp = .gap) :
     LInv p { s with stackHeld := false, dwait := true, disp := .waiting } := by
   linv_open h
-  refine ⟨?_, ?_, d3, ?_, ?_, ?_, ?_, ?_, ?_, ?_, iw, j1, ?_, n1, n2, sr, p1, ?_, ?_, oe1, oe2⟩ <;> dsimp_all
-
-theorem linv_d_waitZero {p : Params} {s : St} (h : LInv p s) (hd : s.disp = .waitZero) (hch : s.tasks.countP fCh = 0) :
-    LInv p { s with disp := .close } := by
-  linv_open h
-  refine ⟨?_, ?_, d3, ?_, ?_, ?_, ?_, ?_, ?_, ?_, iw, j1, ?_, n1, n2, sr, p1, ?_, ?_, oe1, oe2⟩ <;> dsimp_all
+  disp_fields <;> dsimp_all
 
 theorem linv_d_close {p : Params} {s : St} (h : LInv p s) (hd : s.disp = .close) :
     LInv p { s with closed := true, disp := .none } := by
   linv_open h
-  refine ⟨?_, ?_, ?_, ?_, ?_, ?_, ?_, ?_, ?_, ?_, iw, j1, ?_, n1, n2, sr, p1, ?_, ?_, oe1, oe2⟩ <;> dsimp_all
+  refine ⟨?_, ?_, ?_, ?_, ?_, ?_, ?_, ?_, ?_, ?_, ?_, n1, n2, sr, p1, ?_, ?_, oe1, oe2⟩ <;> dsimp_all
 
 theorem linv_d_pop {p : Params} {s : St} {t : Nat} {r : Bool} {k : List Body} (h : LInv p s)
     (hd : s.disp = .pop ∨ s.disp = .waiting) (hsh : s.stackHeld = false)
@@ -413,7 +373,7 @@ theorem linv_d_pop {p : Params} {s : St} {t : Nat} {r : Bool} {k : List Body} (h
   upd_facts ht, ⟨.popped, r, k⟩
   linv_open h
   have hns : s.disp.isSend = false := by rcases hd with hd | hd <;> simp [hd, DPc.isSend]
-  refine ⟨?_, ?_, d3, ?_, ?_, ?_, ?_, ?_, ?_, ?_, ?_, j1, ?_, n1, n2, sr, ?_, ?_, ?_, ?_, ?_⟩
+  refine ⟨?_, ?_, d3, ?_, ?_, ?_, ?_, ?_, ?_, ?_, ?_, n1, n2, sr, ?_, ?_, ?_, ?_, ?_⟩
   · simp
   · intro _; exact d1 (by rcases hd with hd | hd <;> simp [hd])
   · rcases wl with wl | wl
@@ -422,11 +382,10 @@ theorem linv_d_pop {p : Params} {s : St} {t : Nat} {r : Bool} {k : List Body} (h
   · simp
   · simp
   · simp
-  · intro a b c; simp
+  · simp
   · simp [DPc.late]
-  · intro _; simp
-  · simp [fwin, iw]
-  · intro a b c; simp at c
+  · intro a; simp
+  · simp
   · simpa [fer] using p1
   · intro t' hd'; simp at hd'; subst hd'; rw [fph]; simp [Phase.isPop]
   · show _ = b2n (DPc.send t).isSend
@@ -444,7 +403,7 @@ theorem linv_d_send {p : Params} {s : St} {t : Nat} {r : Bool} {k : List Body} (
   upd_facts ht, ⟨.inchan, r, k⟩
   linv_open h
   have hnc : s.closed = false := d1 (by simp [hd])
-  refine ⟨?_, ?_, d3, ?_, ?_, ?_, ?_, ?_, ?_, ?_, ?_, j1, ?_, n1, n2, sr, ?_, ?_, ?_, ?_, ?_⟩
+  refine ⟨?_, ?_, d3, ?_, ?_, ?_, ?_, ?_, ?_, ?_, ?_, n1, n2, sr, ?_, ?_, ?_, ?_, ?_⟩
   · simpa [hd] using h1
   · intro _; exact hnc
   · rcases wl with wl | wl
@@ -453,12 +412,10 @@ theorem linv_d_send {p : Params} {s : St} {t : Nat} {r : Bool} {k : List Body} (
   · simp
   · simp
   · simp
-  · intro a b c
-    have := lw a b c; simp
+  · simp
   · simp [DPc.late]
   · intro _; simp
-  · simp [fwin, iw]
-  · intro a b c; simp at c
+  · simp
   · simpa [fer] using p1
   · intro t' hd'; simp at hd'
   · show _ = b2n DPc.loop.isSend
@@ -485,11 +442,10 @@ theorem linv_dispStep {p : Params} {s s' : St} (h : LInv p s) (hc : s.pending = 
     by_cases hw : s.writer = true
     · rw [if_pos hw] at hs; simp at hs
     · rw [if_neg hw] at hs; simp at hs; subst hs; exact linv_d_loop h hd
-  | size =>
+  | chk =>
     simp only [hd] at hs
-    by_cases hw : s.stackHeld = true
-    · rw [if_pos hw] at hs; simp at hs
-    · rw [if_neg hw] at hs; simp at hs; subst hs; exact linv_d_size h hd (by simpa using hw)
+    simp at hs; subst hs
+    exact linv_d_chk h hd (fun hz => by have := ch_le_pend s; have := cnt_fNone s; omega)
   | pop =>
     simp only [hd] at hs
     by_cases hw : s.stackHeld = true
@@ -507,12 +463,12 @@ theorem linv_dispStep {p : Params} {s s' : St} (h : LInv p s) (hc : s.pending = 
     simp only [hd] at hs
     by_cases hw : s.writer = true
     · rw [if_pos hw] at hs; simp at hs
-    · rw [if_neg hw] at hs
-      by_cases hr : s.running = true
-      · rw [if_pos hr] at hs; simp at hs; subst hs
-        exact linv_d_cond_t h hd hr
-      · rw [if_neg hr] at hs; simp at hs; subst hs
-        exact linv_d_cond_f h hd (by simpa using hr)
+    · rw [if_neg hw] at hs; simp at hs; subst hs; exact linv_d_cond h hd
+  | cond2 =>
+    simp only [hd] at hs
+    by_cases hp : 0 < s.pending
+    · rw [if_pos hp] at hs; simp at hs; subst hs; exact linv_d_cond2_t h hd hp
+    · rw [if_neg hp] at hs; simp at hs; subst hs; exact linv_d_cond2_f h hd
   | gap =>
     simp only [hd] at hs
     simp at hs; subst hs; exact linv_d_gap h hd
@@ -544,33 +500,9 @@ theorem linv_dispStep {p : Params} {s s' : St} (h : LInv p s) (hc : s.pending = 
         rw [setPhase_eq ht]
         exact linv_d_send h hd ht
     · rw [if_neg hcnd] at hs; simp at hs
-  | waitZero =>
-    simp only [hd] at hs
-    by_cases hz : s.pending = 0
-    · rw [if_pos hz] at hs; simp at hs; subst hs
-      have hch : s.tasks.countP fCh = 0 := by
-        have := ch_le_pend s; have := cnt_fNone s; omega
-      exact linv_d_waitZero h hd hch
-    · rw [if_neg hz] at hs; simp at hs
   | close =>
     simp only [hd] at hs
     simp at hs; subst hs; exact linv_d_close h hd
-
-
-theorem linv_newTask {p : Params} {s : St} (h : LInv p s) (kids : List Body) : LInv p (newTask p s kids).1 := by
-  have A := fun f => phL_append s.tasks ⟨.fresh, false, kids⟩ f
-  linv_open h
-  refine ⟨h1, d1, d3, wl, ?_, d9, ?_, lw, d7, d8, ?_, ?_, ?_, n1, n2, sr, ?_, ?_, ?_, ?_, ?_⟩ <;>
-    simp_all [newTask, emit, List.countP_append, fCh, fQ, fWin, fER, fPop, Phase.isCh, Phase.isQ, Phase.isWin,
-      Phase.isEarly, Phase.isPop, Phase.isRunning, Phase.isMarking]
-  · intro t hd; have := od1 t hd
-    have hlt : t ≠ s.tasks.length := by
-      intro e; subst e; simp [phL] at this
-    simp [hlt, this]
-  · intro t; by_cases ht : t = s.tasks.length <;> simp [ht]
-    simp [phL]
-  · intro t; by_cases ht : t = s.tasks.length <;> simp [ht]
-    simp [phL]
 
 
 
@@ -592,22 +524,23 @@ theorem wcount_set (g : WPc → Bool) (ws : List WPc) (i : Nat) (w w' : WPc) (hi
     | true => have := countP_pos_of_get g ws i w hi hf; simp only [b2n_true]; omega
   omega
 
-/-- A worker moves while task `t` changes from `x` to `y` (or nothing changes: `y = x`). -/
+/-- A worker moves while task `t` changes from `x` to `y`; the counter and the owed signals may change. -/
 theorem linv_exec {p : Params} {s : St} {t i : Nat} {x y : Task} {w w' : WPc} (h : LInv p s)
     (ht : s.tasks[t]? = some x) (hi : s.workers[i]? = some w)
-    (b1 : fQ y = fQ x) (b2 : fWin y = fWin x) (b3 : fPop y = fPop x) (b4 : fER y = fER x)
+    (b1 : fQ y = fQ x) (b3 : fPop y = fPop x) (b4 : fER y = fER x)
     (b5 : fCh y = true → fCh x = true)
     (r1 : ∀ t', t' ≠ t → w'.runs t' = w.runs t')
     (r2 : b2n x.phase.isRunning + b2n (w'.runs t) = b2n y.phase.isRunning + b2n (w.runs t))
     (m1 : ∀ t', t' ≠ t → w'.marks t' = w.marks t')
     (m2 : b2n x.phase.isMarking + b2n (w'.marks t) = b2n y.phase.isMarking + b2n (w.marks t))
     (hx : w'.isExited = false) (sig' : Nat) (hsig : sig' ≤ s.sig)
-    (hleave : w.isSel = true → w'.isSel = false → sig' + 1 ≤ s.sig ∨ sig' = 0) :
-    LInv p { s with tasks := s.tasks.set t y, workers := s.workers.set i w', sig := sig' } := by
-  obtain ⟨fq, fch, fwin, fpop, fer, fph, fold⟩ := updFacts s.tasks t x y ht
-  rw [b1] at fq; rw [b2] at fwin; rw [b3] at fpop; rw [b4] at fer
+    (hleave : w.isSel = true → w'.isSel = false → sig' + 1 ≤ s.sig ∨ sig' = 0)
+    (pending' due' : Nat) (hp0 : s.pending = 0 → pending' = 0)
+    (hlw : (s.running = true ∨ 0 < s.pending ∨ 0 < s.due) → (s.running = true ∨ 0 < pending' ∨ 0 < due')) :
+    LInv p { s with tasks := s.tasks.set t y, workers := s.workers.set i w', sig := sig', pending := pending', due := due' } := by
+  obtain ⟨fq, fch, fpop, fer, fph, fold⟩ := updFacts s.tasks t x y ht
+  rw [b1] at fq; rw [b3] at fpop; rw [b4] at fer
   have e1 : (s.tasks.set t y).countP fQ = s.tasks.countP fQ := by omega
-  have e3 : (s.tasks.set t y).countP fWin = s.tasks.countP fWin := by omega
   have e4 : (s.tasks.set t y).countP fPop = s.tasks.countP fPop := by omega
   have e5 : (s.tasks.set t y).countP fER = s.tasks.countP fER := by omega
   have e2 : (s.tasks.set t y).countP fCh ≤ s.tasks.countP fCh := by
@@ -620,7 +553,7 @@ theorem linv_exec {p : Params} {s : St} {t i : Nat} {x y : Task} {w w' : WPc} (h
     · simp [h']
   have cs := wcount_set WPc.isSel s.workers i w w' hi
   linv_open h
-  refine ⟨h1, d1, ?_, ?_, ?_, ?_, ?_, lw, d7, d8, ?_, j1, ?_, ?_, ?_, sr, ?_, ?_, ?_, ?_, ?_⟩
+  refine ⟨h1, d1, ?_, ?_, ?_, ?_, ?_, ?_, d7, d8, ?_, ?_, ?_, sr, ?_, ?_, ?_, ?_, ?_⟩
   · intro hc v hv
     rcases List.mem_or_eq_of_mem_set hv with hv | hv
     · exact d3 hc v hv
@@ -634,12 +567,11 @@ theorem linv_exec {p : Params} {s : St} {t i : Nat} {x y : Task} {w w' : WPc} (h
     · rw [a] at hi; simp at hi
     · exact Or.inr a
   · simpa [e1] using q1
-  · simpa [e3] using iw
-  · simpa [e1] using rw
+  · intro a; exact hlw (lw a)
+  · intro a b; exact hp0 (pz a b)
   · show sig' ≤ s.sent + (s.workers.set i w').countP WPc.isSel
     cases hs' : w'.isSel with
     | false =>
-      -- the worker is not (or no longer) at `sel`: at most one fewer `sel` worker, and a signal less if it was
       cases hs : w.isSel with
       | false => rw [hs', hs] at cs; simp at cs; omega
       | true =>
@@ -675,7 +607,7 @@ theorem linv_wmove {p : Params} {s : St} {i : Nat} {w w' : WPc} (h : LInv p s) (
     LInv p { s with workers := s.workers.set i w', sig := sig' } := by
   have cs := wcount_set WPc.isSel s.workers i w w' hi
   linv_open h
-  refine ⟨h1, d1, ?_, ?_, d5, ?_, q1, lw, d7, d8, iw, j1, rw, ?_, ?_, sr, p1, od1, od2, ?_, ?_⟩
+  refine ⟨h1, d1, ?_, ?_, d5, ?_, q1, lw, d7, d8, pz, ?_, ?_, sr, p1, od1, od2, ?_, ?_⟩
   · intro hc v hv
     rcases List.mem_or_eq_of_mem_set hv with hv | hv
     · exact d3 hc v hv
@@ -709,7 +641,43 @@ theorem linv_wmove {p : Params} {s : St} {i : Nat} {w w' : WPc} (h : LInv p s) (
     rw [m1 t'] at c; have o := oe2 t'
     show (s.workers.set i w').countP (WPc.marks t') = b2n (phL s.tasks t' Phase.isMarking); omega
 
-macro "rfl13" : tactic => `(tactic| skip)
+/-- `Queue.SignalShutdown` (under the stack mutex): whoever sleeps is woken; any number of owed signals may remain. -/
+theorem linv_bcast {p : Params} {s : St} (h : LInv p s) (hsh : s.stackHeld = false) (d : Nat) :
+    LInv p { s with dwait := false, due := d } := by
+  linv_open h
+  have hnc : ¬ (s.disp = .cond ∨ s.disp = .cond2 ∨ s.disp = .gap) := fun hc => by rw [h1.mpr hc] at hsh; cases hsh
+  refine ⟨h1, d1, d3, wl, d5, d9, ?_, ?_, d7, d8, pz, n1, n2, sr, p1, od1, od2, oe1, oe2⟩
+  · intro hq
+    rcases hq with hq | hq | hq | hq
+    · exact q1 (Or.inl hq)
+    · exact q1 (Or.inr (Or.inl hq))
+    · exact q1 (Or.inr (Or.inr (Or.inl hq)))
+    · simp at hq
+  · intro hq
+    rcases hq with hq | hq
+    · exact absurd (Or.inr (Or.inr hq)) hnc
+    · simp at hq
+
+
+
+
+theorem linv_newTask {p : Params} {s : St} (h : LInv p s) (kids : List Body) : LInv p (newTask p s kids).1 := by
+  have A := fun f => phL_append s.tasks ⟨.fresh, false, kids⟩ f
+  linv_open h
+  refine ⟨h1, d1, d3, wl, ?_, d9, ?_, lw, d7, d8, pz, n1, n2, sr, ?_, ?_, ?_, ?_, ?_⟩ <;>
+    simp_all [newTask, emit, List.countP_append, fCh, fQ, fER, fPop, Phase.isCh, Phase.isQ,
+      Phase.isEarly, Phase.isPop, Phase.isRunning, Phase.isMarking]
+  · intro t hd; have := od1 t hd
+    have hlt : t ≠ s.tasks.length := by
+      intro e; subst e; simp [phL] at this
+    simp [hlt, this]
+  · intro t; by_cases ht : t = s.tasks.length <;> simp [ht]
+    simp [phL]
+  · intro t; by_cases ht : t = s.tasks.length <;> simp [ht]
+    simp [phL]
+
+theorem lw_keep {s : St} : (s.running = true ∨ 0 < s.pending ∨ 0 < s.due) → (s.running = true ∨ 0 < s.pending ∨ 0 < s.due) :=
+  fun a => a
 
 theorem linv_takeRun {p : Params} {s : St} {i t : Nat} {w : WPc} {dr : Bool} (h : LInv p s)
     (hi : s.workers[i]? = some w) (hw : w = .sel2 ∨ w = .drain) (ht : t ∈ chanIds s) :
@@ -718,14 +686,50 @@ theorem linv_takeRun {p : Params} {s : St} {i t : Nat} {w : WPc} {dr : Bool} (h 
   have hk : kidsOf s t = k := by simp [kidsOf, ht]
   simp only [takeRun]
   rw [setPhase_eq ht]
-  have := linv_exec (y := ⟨.running, r, k⟩) (w' := .run t k none dr) h ht hi rfl rfl rfl rfl (by simp [fCh, Phase.isCh])
+  have := linv_exec (y := ⟨.running, r, k⟩) (w' := .run t k none dr) h ht hi rfl rfl rfl (by simp [fCh, Phase.isCh])
     (by intro t' h'; rcases hw with hw | hw <;> subst hw <;> (simp [WPc.runs]; exact fun e => h' e.symm))
     (by rcases hw with hw | hw <;> subst hw <;> simp [WPc.runs, Phase.isRunning, b2n])
     (by intro t' h'; rcases hw with hw | hw <;> subst hw <;> simp [WPc.marks])
     (by rcases hw with hw | hw <;> subst hw <;> simp [WPc.marks, Phase.isMarking, b2n])
     rfl s.sig (Nat.le_refl _) (by rcases hw with hw | hw <;> subst hw <;> simp [WPc.isSel])
+    s.pending s.due (fun a => a) lw_keep
   rw [hk]
-  exact this.congr rfl rfl rfl rfl rfl rfl rfl rfl rfl rfl rfl rfl rfl
+  exact this.congr rfl rfl rfl rfl rfl rfl rfl rfl rfl rfl rfl
+
+/-- `markDone` by worker `i` on task `t` (after a run: `x = ran`, `y = done`; cancelled: `cancelling`/`cancelled`). -/
+theorem linv_markDone {p : Params} {s : St} {i t : Nat} {r : Bool} {k : List Body} {dr : Bool} {phx phy : Phase}
+    (h : LInv p s) (ht : s.tasks[t]? = some ⟨phx, r, k⟩) (hi : s.workers[i]? = some (.mark t dr))
+    (hx : phx.isMarking = true ∧ phx.isQ = false ∧ phx.isPop = false ∧ phx.isEarly = false ∧ phx.isRunning = false)
+    (hy : phy.isMarking = false ∧ phy.isQ = false ∧ phy.isPop = false ∧ phy.isEarly = false ∧ phy.isRunning = false ∧ phy.isCh = false)
+    (dr' : Bool) :
+    LInv p { (markDone p s t phy dr').1 with workers := (markDone p s t phy dr').1.workers.set i (markDone p s t phy dr').2 } := by
+  obtain ⟨x1, x2, x3, x4, x5⟩ := hx
+  obtain ⟨y1, y2, y3, y4, y5, y6⟩ := hy
+  unfold markDone
+  by_cases hp : s.pending = 1
+  · rw [if_pos hp]
+    rw [setPhase_eq ht]
+    have := linv_exec (y := ⟨phy, r, k⟩) (w' := .signal dr') h ht hi (by simp [fQ, x2, y2]) (by simp [fPop, x3, y3])
+      (by simp [fER, x4, y4]) (by simp [fCh, y6])
+      (by intro t' h'; simp [WPc.runs]) (by simp [WPc.runs, x5, y5])
+      (by intro t' h'; simp [WPc.marks]; exact fun e => h' e.symm) (by simp [WPc.marks, x1, y1, b2n])
+      rfl s.sig (Nat.le_refl _) (by simp [WPc.isSel]) 0 (s.due + 1) (fun _ => rfl) (fun _ => Or.inr (Or.inr (by omega)))
+    exact this.congr rfl rfl rfl rfl rfl rfl rfl rfl rfl rfl rfl
+  · rw [if_neg hp]
+    rw [setPhase_eq ht]
+    have := linv_exec (y := ⟨phy, r, k⟩) (w' := if dr' then .drain else .sel) h ht hi (by simp [fQ, x2, y2]) (by simp [fPop, x3, y3])
+      (by simp [fER, x4, y4]) (by simp [fCh, y6])
+      (by intro t' h'; cases dr' <;> simp [WPc.runs]) (by cases dr' <;> simp [WPc.runs, x5, y5])
+      (by intro t' h'; cases dr' <;> (simp [WPc.marks]; exact fun e => h' e.symm))
+      (by cases dr' <;> simp [WPc.marks, x1, y1, b2n])
+      (by cases dr' <;> rfl) s.sig (Nat.le_refl _) (by simp [WPc.isSel]) (s.pending - 1) s.due (fun a => by omega)
+      (fun a => by rcases a with a | a | a
+                   · exact Or.inl a
+                   · exact Or.inr (Or.inl (by omega))
+                   · exact Or.inr (Or.inr a))
+    exact this.congr rfl rfl rfl rfl rfl rfl rfl rfl rfl rfl rfl
+
+
 
 /-- The steps of worker `i` preserve `LInv`. -/
 theorem linv_wStep {p : Params} {s : St} {i : Nat} {w : WPc} {r : St × WPc} (h : LInv p s)
@@ -738,17 +742,17 @@ theorem linv_wStep {p : Params} {s : St} {i : Nat} {w : WPc} {r : St × WPc} (h 
     by_cases hs : 0 < s.sig
     · rw [if_pos hs] at hr; simp at hr; subst hr
       exact (linv_wmove (w' := .drain) h hi (by simp [WPc.runs]) (by simp [WPc.marks]) (by simp [WPc.isExited])
-        (s.sig - 1) (by omega) (fun _ _ => Or.inl (by omega))).congr rfl rfl rfl rfl rfl rfl rfl rfl rfl rfl rfl rfl rfl
+        (s.sig - 1) (by omega) (fun _ _ => Or.inl (by omega))).congr rfl rfl rfl rfl rfl rfl rfl rfl rfl rfl rfl
     · rw [if_neg hs] at hr; simp at hr; subst hr
       exact (linv_wmove (w' := .sel2) h hi (by simp [WPc.runs]) (by simp [WPc.marks]) (by simp [WPc.isExited])
-        s.sig (Nat.le_refl _) (fun _ _ => Or.inr (by omega))).congr rfl rfl rfl rfl rfl rfl rfl rfl rfl rfl rfl rfl rfl
+        s.sig (Nat.le_refl _) (fun _ _ => Or.inr (by omega))).congr rfl rfl rfl rfl rfl rfl rfl rfl rfl rfl rfl
   | sel2 =>
     simp only [wStep, List.mem_append] at hr
     rcases hr with (hr | hr) | hr
     · by_cases hs : 0 < s.sig
       · rw [if_pos hs] at hr; simp at hr; subst hr
         exact (linv_wmove (w' := .drain) h hi (by simp [WPc.runs]) (by simp [WPc.marks]) (by simp [WPc.isExited])
-          (s.sig - 1) (by omega) (by simp [WPc.isSel])).congr rfl rfl rfl rfl rfl rfl rfl rfl rfl rfl rfl rfl rfl
+          (s.sig - 1) (by omega) (by simp [WPc.isSel])).congr rfl rfl rfl rfl rfl rfl rfl rfl rfl rfl rfl
       · rw [if_neg hs] at hr; simp at hr
     · simp only [List.mem_map] at hr
       obtain ⟨t, ht, rfl⟩ := hr
@@ -756,7 +760,7 @@ theorem linv_wStep {p : Params} {s : St} {i : Nat} {w : WPc} {r : St × WPc} (h 
     · by_cases hc : s.closed = true ∧ chanIds s = []
       · rw [if_pos hc] at hr; simp at hr; subst hr
         exact (linv_wmove (w' := .drain) h hi (by simp [WPc.runs]) (by simp [WPc.marks]) (by simp [WPc.isExited])
-          s.sig (Nat.le_refl _) (by simp [WPc.isSel])).congr rfl rfl rfl rfl rfl rfl rfl rfl rfl rfl rfl rfl rfl
+          s.sig (Nat.le_refl _) (by simp [WPc.isSel])).congr rfl rfl rfl rfl rfl rfl rfl rfl rfl rfl rfl
       · rw [if_neg hc] at hr; simp at hr
   | drain =>
     simp only [wStep, List.mem_append] at hr
@@ -767,17 +771,17 @@ theorem linv_wStep {p : Params} {s : St} {i : Nat} {w : WPc} {r : St × WPc} (h 
       · rw [if_pos hcc]
         obtain ⟨r, k, ht'⟩ := chan_get ht
         rw [setPhase_eq ht']
-        have := linv_exec (y := ⟨.cancelling, r, k⟩) (w' := .mark t true) h ht' hi rfl rfl rfl rfl (by simp [fCh, Phase.isCh])
+        have := linv_exec (y := ⟨.cancelling, r, k⟩) (w' := .mark t true) h ht' hi rfl rfl rfl (by simp [fCh, Phase.isCh])
           (by intro t' h'; simp [WPc.runs]) (by simp [WPc.runs, Phase.isRunning, b2n])
           (by intro t' h'; simp [WPc.marks]; exact fun e => h' e.symm) (by simp [WPc.marks, Phase.isMarking, b2n])
-          rfl s.sig (Nat.le_refl _) (by simp [WPc.isSel])
-        exact this.congr rfl rfl rfl rfl rfl rfl rfl rfl rfl rfl rfl rfl rfl
+          rfl s.sig (Nat.le_refl _) (by simp [WPc.isSel]) s.pending s.due (fun a => a) lw_keep
+        exact this.congr rfl rfl rfl rfl rfl rfl rfl rfl rfl rfl rfl
       · rw [if_neg hcc]
         exact linv_takeRun h hi (Or.inr rfl) ht
     · by_cases hc : s.closed = true ∧ chanIds s = []
       · rw [if_pos hc] at hr; simp at hr; subst hr
         exact (linv_wmove (w' := .exited) h hi (by simp [WPc.runs]) (by simp [WPc.marks]) (fun _ => hc.1)
-          s.sig (Nat.le_refl _) (by simp [WPc.isSel])).congr rfl rfl rfl rfl rfl rfl rfl rfl rfl rfl rfl rfl rfl
+          s.sig (Nat.le_refl _) (by simp [WPc.isSel])).congr rfl rfl rfl rfl rfl rfl rfl rfl rfl rfl rfl
       · rw [if_neg hc] at hr; simp at hr
   | run t todo sub dr =>
     simp only [wStep] at hr
@@ -789,7 +793,7 @@ theorem linv_wStep {p : Params} {s : St} {i : Nat} {w : WPc} {r : St × WPc} (h 
       have h1 := linv_submitStep h hq
       exact (linv_wmove (w' := .run t todo (if q.2 then none else some c) dr) h1 (by rw [hws]; exact hi)
         (by simp [WPc.runs]) (by simp [WPc.marks]) (by simp [WPc.isExited])
-        q.1.sig (Nat.le_refl _) (by simp [WPc.isSel])).congr rfl rfl rfl rfl rfl rfl rfl rfl rfl rfl rfl rfl rfl
+        q.1.sig (Nat.le_refl _) (by simp [WPc.isSel])).congr rfl rfl rfl rfl rfl rfl rfl rfl rfl rfl rfl
     | none =>
       cases todo with
       | cons b rest =>
@@ -797,7 +801,7 @@ theorem linv_wStep {p : Params} {s : St} {i : Nat} {w : WPc} {r : St × WPc} (h 
         have h1 := linv_newTask h b.kids
         exact (linv_wmove (w' := .run t rest (some (newTask p s b.kids).2) dr) h1 hi
           (by simp [WPc.runs]) (by simp [WPc.marks]) (by simp [WPc.isExited])
-          s.sig (Nat.le_refl _) (by simp [WPc.isSel])).congr rfl rfl rfl rfl rfl rfl rfl rfl rfl rfl rfl rfl rfl
+          s.sig (Nat.le_refl _) (by simp [WPc.isSel])).congr rfl rfl rfl rfl rfl rfl rfl rfl rfl rfl rfl
       | nil =>
         simp only at hr
         by_cases hph : phaseOf s t = some .running
@@ -809,11 +813,11 @@ theorem linv_wStep {p : Params} {s : St} {i : Nat} {w : WPc} {r : St × WPc} (h 
             obtain ⟨ph, r, k⟩ := x
             simp [ht] at hph; subst hph
             rw [setPhase_eq ht]
-            have := linv_exec (y := ⟨.ran, r, k⟩) (w' := .mark t dr) h ht hi rfl rfl rfl rfl (by simp [fCh, Phase.isCh])
+            have := linv_exec (y := ⟨.ran, r, k⟩) (w' := .mark t dr) h ht hi rfl rfl rfl (by simp [fCh, Phase.isCh])
               (by intro t' h'; simp [WPc.runs]; exact fun e => h' e.symm) (by simp [WPc.runs, Phase.isRunning, b2n])
               (by intro t' h'; simp [WPc.marks]; exact fun e => h' e.symm) (by simp [WPc.marks, Phase.isMarking, b2n])
-              rfl s.sig (Nat.le_refl _) (by simp [WPc.isSel])
-            exact this.congr rfl rfl rfl rfl rfl rfl rfl rfl rfl rfl rfl rfl rfl
+              rfl s.sig (Nat.le_refl _) (by simp [WPc.isSel]) s.pending s.due (fun a => a) lw_keep
+            exact this.congr rfl rfl rfl rfl rfl rfl rfl rfl rfl rfl rfl
         · rw [if_neg hph] at hr; simp at hr
   | mark t dr =>
     simp only [wStep] at hr
@@ -826,24 +830,21 @@ theorem linv_wStep {p : Params} {s : St} {i : Nat} {w : WPc} {r : St × WPc} (h 
       cases ph <;> simp at hr
       case ran =>
         subst hr
-        rw [setPhase_eq ht]
-        have := linv_exec (y := ⟨.done, r, k⟩) (w' := if dr then .drain else .sel) h ht hi rfl rfl rfl rfl (by simp [fCh, Phase.isCh])
-          (by intro t' h'; cases dr <;> simp [WPc.runs]) (by cases dr <;> simp [WPc.runs, Phase.isRunning, b2n])
-          (by intro t' h'; cases dr <;> (simp [WPc.marks]; exact fun e => h' e.symm))
-          (by cases dr <;> simp [WPc.marks, Phase.isMarking, b2n])
-          (by cases dr <;> rfl) s.sig (Nat.le_refl _) (by simp [WPc.isSel])
-        exact this.congr rfl rfl rfl rfl rfl rfl rfl rfl rfl rfl rfl rfl rfl
+        exact linv_markDone h ht hi (by simp [Phase.isMarking, Phase.isQ, Phase.isPop, Phase.isEarly, Phase.isRunning])
+          (by simp [Phase.isMarking, Phase.isQ, Phase.isPop, Phase.isEarly, Phase.isRunning, Phase.isCh]) dr
       case cancelling =>
         subst hr
-        rw [setPhase_eq ht]
-        have := linv_exec (y := ⟨.cancelled, r, k⟩) (w' := .drain) h ht hi rfl rfl rfl rfl (by simp [fCh, Phase.isCh])
-          (by intro t' h'; simp [WPc.runs]) (by simp [WPc.runs, Phase.isRunning, b2n])
-          (by intro t' h'; simp [WPc.marks]; exact fun e => h' e.symm)
-          (by simp [WPc.marks, Phase.isMarking, b2n])
-          rfl s.sig (Nat.le_refl _) (by simp [WPc.isSel])
-        exact this.congr rfl rfl rfl rfl rfl rfl rfl rfl rfl rfl rfl rfl rfl
-
-
+        exact linv_markDone h ht hi (by simp [Phase.isMarking, Phase.isQ, Phase.isPop, Phase.isEarly, Phase.isRunning])
+          (by simp [Phase.isMarking, Phase.isQ, Phase.isPop, Phase.isEarly, Phase.isRunning, Phase.isCh]) true
+  | signal dr =>
+    simp only [wStep] at hr
+    by_cases hsh : s.stackHeld = true
+    · rw [if_pos hsh] at hr; simp at hr
+    · rw [if_neg hsh] at hr; simp at hr; subst hr
+      have h1 := linv_bcast h (by simpa using hsh) (s.due - 1)
+      exact (linv_wmove (w' := if dr then .drain else .sel) h1 hi (by cases dr <;> simp [WPc.runs])
+        (by cases dr <;> simp [WPc.marks]) (by cases dr <;> simp [WPc.isExited])
+        s.sig (Nat.le_refl _) (by simp [WPc.isSel])).congr rfl rfl rfl rfl rfl rfl rfl rfl rfl rfl rfl
 
 theorem linv_runnerStep {p : Params} {s s' : St} (h : LInv p s) (hc : s.pending = cnt fPend s)
     (hs : s' ∈ runnerStep p s) : LInv p s' := by
@@ -866,6 +867,7 @@ theorem all_exited_of_wg {s : St} (h : wg s = 0) : ∀ w ∈ s.workers, w.isExit
     have : 0 < wg s := List.countP_pos_iff.mpr ⟨w, hw, by simp [he]⟩
     omega
 
+
 theorem linv_spawn {p : Params} {s : St} (h : LInv p s) (hW : 0 < p.W) (hz : wg s = 0) : LInv p (spawn p s) := by
   have hall := all_exited_of_wg hz
   linv_open h
@@ -885,7 +887,7 @@ theorem linv_spawn {p : Params} {s : St} (h : LInv p s) (hW : 0 < p.W) (hz : wg 
   have hsh : s.stackHeld = false := by
     cases hh : s.stackHeld with
     | false => rfl
-    | true => rcases h1.mp hh with a | a <;> simp [hdn] at a
+    | true => rcases h1.mp hh with a | a | a <;> simp [hdn] at a
   have hnr : ∀ t, s.workers.countP (WPc.runs t) = 0 := by
     intro t; rw [List.countP_eq_zero]; intro w hw
     have := hall w hw; cases w <;> simp [WPc.isExited] at this; simp [WPc.runs]
@@ -893,7 +895,7 @@ theorem linv_spawn {p : Params} {s : St} (h : LInv p s) (hW : 0 < p.W) (hz : wg 
     intro t; rw [List.countP_eq_zero]; intro w hw
     have := hall w hw; cases w <;> simp [WPc.isExited] at this; simp [WPc.marks]
   unfold spawn
-  refine ⟨?_, ?_, ?_, ?_, ?_, ?_, ?_, ?_, ?_, ?_, iw, ?_, ?_, ?_, n2, ?_, p1, ?_, ?_, ?_, ?_⟩
+  refine ⟨?_, ?_, ?_, ?_, ?_, ?_, ?_, ?_, ?_, ?_, ?_, ?_, n2, ?_, p1, ?_, ?_, ?_, ?_⟩
   · simp [hsh]
   · intro _; rfl
   · intro _ w hw; have := List.eq_of_mem_replicate hw; subst this; rfl
@@ -901,11 +903,10 @@ theorem linv_spawn {p : Params} {s : St} (h : LInv p s) (hW : 0 < p.W) (hz : wg 
   · simp
   · simp
   · simp
-  · intro a; simp at a
+  · simp
   · simp [DPc.late]
   · intro _; simp
-  · intro _ a; simp at a
-  · intro _ a; simp at a
+  · simp
   · show s.sig ≤ 0 + (List.replicate p.W WPc.sel).countP WPc.isSel
     have : (List.replicate p.W WPc.sel).countP WPc.isSel = p.W := by
       rw [List.countP_replicate]; simp [WPc.isSel]
@@ -923,50 +924,29 @@ theorem linv_spawn {p : Params} {s : St} (h : LInv p s) (hW : 0 < p.W) (hz : wg 
     rw [← this, List.countP_replicate]; simp [WPc.marks]
 
 theorem linv_sd1 {p : Params} {s : St} (h : LInv p s) (hr : s.running = true) :
-    LInv p { s with writer := true, running := false, raced := s.raced || decide (0 < s.inWindow),
-                    sent := 0, bcastPending := true } := by
+    LInv p { s with writer := true, running := false, due := s.due + 1 } := by
   linv_open h
-  have hs0 := sr hr
-  refine ⟨h1, d1, d3, ?_, d5, d9, q1, ?_, ?_, ?_, iw, ?_, ?_, ?_, n2, ?_, p1, od1, od2, oe1, oe2⟩
+  refine ⟨h1, d1, d3, ?_, d5, d9, q1, ?_, ?_, ?_, ?_, n1, n2, ?_, p1, od1, od2, oe1, oe2⟩
   · rcases wl with wl | wl
     · exact Or.inl wl
     · rw [hr] at wl; simp at wl
-  · intro _ a; simp at a
+  · intro _; right; right; show 0 < s.due + 1; omega
   · intro _; rfl
   · intro a; simp at a
-  · intro a _
-    simp only [Bool.or_eq_false_iff, decide_eq_false_iff_not] at a
-    show s.inWindow = 0; omega
-  · intro _ _ c
-    rcases c with c | c | c
-    · have c' : s.disp = .waitZero := c
-      have := d7 (by rw [c']; rfl); rw [hr] at this; cases this
+  · intro c _
+    rcases c with c | c
     · have c' : s.disp = .close := c
       have := d7 (by rw [c']; rfl); rw [hr] at this; cases this
     · exact absurd c (d8 hr)
-  · show s.sig ≤ 0 + s.workers.countP WPc.isSel; rw [hs0] at n1; exact n1
   · intro a; simp at a
 
 theorem linv_sdSend {p : Params} {s : St} (h : LInv p s) (hr : s.running = false) (hs : s.sig < p.W) :
     LInv p { s with sig := s.sig + 1, sent := s.sent + 1 } := by
   linv_open h
-  refine ⟨h1, d1, d3, wl, d5, d9, q1, lw, d7, d8, iw, j1, rw, ?_, ?_, ?_, p1, od1, od2, oe1, oe2⟩
+  refine ⟨h1, d1, d3, wl, d5, d9, q1, lw, d7, d8, pz, ?_, ?_, ?_, p1, od1, od2, oe1, oe2⟩
   · show s.sig + 1 ≤ s.sent + 1 + s.workers.countP WPc.isSel; omega
   · show s.sig + 1 ≤ p.W; omega
   · intro a; rw [hr] at a; cases a
-
-theorem linv_sdBcast {p : Params} {s : St} (h : LInv p s) :
-    LInv p { s with dwait := false, lost := s.lost || s.disp == .gap, bcastPending := false } := by
-  linv_open h
-  refine ⟨h1, d1, d3, wl, d5, d9, ?_, ?_, d7, d8, iw, j1, rw, n1, n2, sr, p1, od1, od2, oe1, oe2⟩
-  · intro a
-    rcases a with a | a | a
-    · exact q1 (Or.inl a)
-    · exact q1 (Or.inr (Or.inl a))
-    · simp at a
-  · intro _ _ c
-    simp only [Bool.or_eq_false_iff, beq_eq_false_iff_ne] at c
-    exact ⟨c.2, by simp⟩
 
 /-- The steps of a client thread preserve `LInv`; a client in `Shutdown`'s send loop knows that the pool
 is switched off (thread-level fact supplied by the caller). -/
@@ -981,8 +961,8 @@ theorem linv_clientStep {p : Params} {s : St} {c : Client} {r : St × Client} (h
     | cons op rest =>
       cases op <;> (simp at hr; subst hr)
       · exact linv_newTask h _
-      · exact h.congr rfl rfl rfl rfl rfl rfl rfl rfl rfl rfl rfl rfl rfl
-      · exact h.congr rfl rfl rfl rfl rfl rfl rfl rfl rfl rfl rfl rfl rfl
+      · exact h.congr rfl rfl rfl rfl rfl rfl rfl rfl rfl rfl rfl
+      · exact h.congr rfl rfl rfl rfl rfl rfl rfl rfl rfl rfl rfl
       · exact h
       · exact h
   case sub t =>
@@ -997,7 +977,7 @@ theorem linv_clientStep {p : Params} {s : St} {c : Client} {r : St × Client} (h
       by_cases hrun : s.running = true
       · rw [if_pos hrun] at hr; simp at hr; subst hr; exact linv_sd1 h hrun
       · rw [if_neg hrun] at hr; simp at hr; subst hr
-        exact h.congr rfl rfl rfl rfl rfl rfl rfl rfl rfl rfl rfl rfl rfl
+        exact h.congr rfl rfl rfl rfl rfl rfl rfl rfl rfl rfl rfl
   case sdSend j =>
     simp only [clientStep] at hr
     by_cases hj : j < p.W
@@ -1006,42 +986,41 @@ theorem linv_clientStep {p : Params} {s : St} {c : Client} {r : St × Client} (h
       · rw [if_pos hsg] at hr; simp at hr; subst hr; exact linv_sdSend h (hsend j rfl) hsg
       · rw [if_neg hsg] at hr; simp at hr
     · rw [if_neg hj] at hr; simp at hr; subst hr; exact h
-  case sdBcast => simp [clientStep] at hr; subst hr; exact linv_sdBcast h
-  case sdUnlock =>
+  case sdUnlockS =>
     simp [clientStep] at hr; subst hr
-    exact h.congr rfl rfl rfl rfl rfl rfl rfl rfl rfl rfl rfl rfl rfl
-  case st0 =>
+    exact h.congr rfl rfl rfl rfl rfl rfl rfl rfl rfl rfl rfl
+  case sdUnlockN =>
+    simp [clientStep] at hr; subst hr
+    exact h.congr rfl rfl rfl rfl rfl rfl rfl rfl rfl rfl rfl
+  case sdBcast =>
     simp only [clientStep] at hr
-    by_cases ho : p.oldStart = true
-    · rw [if_pos ho] at hr; simp at hr; subst hr; exact h
-    · rw [if_neg ho] at hr
-      by_cases hw : s.writer = true
-      · rw [if_pos hw] at hr; simp at hr
-      · rw [if_neg hw] at hr; simp at hr; subst hr; exact h
-  case stWait1 =>
+    by_cases hsh : s.stackHeld = true
+    · rw [if_pos hsh] at hr; simp at hr
+    · rw [if_neg hsh] at hr; simp at hr; subst hr
+      exact (linv_bcast h (by simpa using hsh) (s.due - 1)).congr rfl rfl rfl rfl rfl rfl rfl rfl rfl rfl rfl
+  case stTry =>
+    simp only [clientStep] at hr
+    by_cases hw : s.writer = true
+    · rw [if_pos hw] at hr; simp at hr
+    · rw [if_neg hw] at hr
+      by_cases hrun : s.running = true
+      · rw [if_pos hrun] at hr; simp at hr; subst hr
+        exact h.congr rfl rfl rfl rfl rfl rfl rfl rfl rfl rfl rfl
+      · rw [if_neg hrun] at hr
+        by_cases hz : wg s = 0
+        · rw [if_pos hz] at hr; simp at hr; subst hr
+          exact (linv_spawn h hW hz).congr rfl rfl rfl rfl rfl rfl rfl rfl rfl rfl rfl
+        · rw [if_neg hz] at hr; simp at hr; subst hr; exact h
+  case stWait =>
     simp only [clientStep] at hr
     by_cases hz : wg s = 0
     · rw [if_pos hz] at hr; simp at hr; subst hr; exact h
     · rw [if_neg hz] at hr; simp at hr
-  case stLock =>
-    simp only [clientStep] at hr
-    by_cases hw : s.writer = true
-    · rw [if_pos hw] at hr; simp at hr
-    · rw [if_neg hw] at hr; simp at hr; subst hr
-      exact h.congr rfl rfl rfl rfl rfl rfl rfl rfl rfl rfl rfl rfl rfl
-  case stWait2 =>
-    simp only [clientStep] at hr
-    by_cases hz : wg s = 0
-    · rw [if_pos hz] at hr; simp at hr; subst hr; exact linv_spawn h hW hz
-    · rw [if_neg hz] at hr; simp at hr
-  case stUnlock =>
-    simp [clientStep] at hr; subst hr
-    exact h.congr rfl rfl rfl rfl rfl rfl rfl rfl rfl rfl rfl rfl rfl
   case wc =>
     simp only [clientStep] at hr
     by_cases hz : wg s = 0
     · rw [if_pos hz] at hr; simp at hr; subst hr
-      exact h.congr rfl rfl rfl rfl rfl rfl rfl rfl rfl rfl rfl rfl rfl
+      exact h.congr rfl rfl rfl rfl rfl rfl rfl rfl rfl rfl rfl
     · rw [if_neg hz] at hr; simp at hr
   case wz =>
     simp only [clientStep] at hr
